@@ -440,6 +440,10 @@ def mon_c15(h, outs):
                         idx = was.index(c) if c in was else None
                     if idx is not None and 0 <= idx < len(was):
                         want = was[:idx] + [plain(new)] + was[idx + 1:]
+                        if now != want and sorted(map(str, now)) != sorted(map(str, want)):
+                            fails.append(("c15:modified-instance-wrong-value:%s" % nm,
+                                          "ModifyAttribute of instance %d of %s on object %s to %s: instances were %s, are "
+                                          "now %s (expected %s)" % (idx, nm, u, plain(new), was, now, want), i))
                         if now != want and sorted(map(str, now)) == sorted(map(str, want)):
                             fails.append(("c15:modified-instance-moved:%s" % nm,
                                           "ModifyAttribute of instance %d of %s on object %s: instances were %s, are now "
